@@ -35,17 +35,20 @@ def W1 (env : Env) (o : Opts) (evs : List Ev) : Bool :=
   allPairs (evs.filter (·.isNum o)) fun x y => x.nh ≠ y.nh || env.norm x.ser = env.norm y.ser
 def W2 (o : Opts) (evs : List Ev) : Bool :=
   allPairs (evs.filter (·.isDen o)) fun x y => x.trial ≠ y.trial || x.dh = y.dh
+/-- the numerator measurements, each with the baseline hash of its trial (computed once) -/
+def numsBh (o : Opts) (evs : List Ev) : List (Ev × Bytes) :=
+  (evs.filter (·.isNum o)).map fun e => (e, bhash o evs e.trial)
 def W3 (env : Env) (o : Opts) (evs : List Ev) : Bool :=
-  allPairs (evs.filter (·.isNum o)) fun x y =>
-    x.tkey ≠ y.tkey || normD env x.ser ≠ normD env y.ser ||
-      (x.nh = y.nh && (bhash o evs x.trial = bhash o evs y.trial || bhash o evs x.trial = [] || bhash o evs y.trial = []))
+  allPairs (numsBh o evs) fun x y =>
+    x.1.tkey ≠ y.1.tkey || normD env x.1.ser ≠ normD env y.1.ser ||
+      (x.1.nh = y.1.nh && (x.2 = y.2 || x.2 = [] || y.2 = []))
 /-- combine only: a series point whose trials do not all lack a baseline has a benchmark all of whose
 trials (for that point) have one -/
 def W3c (env : Env) (o : Opts) (evs : List Ev) : Bool :=
-  let N := evs.filter (·.isNum o)
-  N.all fun x => bhash o evs x.trial = [] ||
-    N.any fun c => c.tkey = x.tkey && normD env c.ser = normD env x.ser &&
-      N.all fun d => d.tkey ≠ c.tkey || normD env d.ser ≠ normD env c.ser || d.bench ≠ c.bench || bhash o evs d.trial ≠ []
+  let N := numsBh o evs
+  N.all fun x => x.2 = [] ||
+    N.any fun c => c.1.tkey = x.1.tkey && normD env c.1.ser = normD env x.1.ser &&
+      N.all fun d => d.1.tkey ≠ c.1.tkey || normD env d.1.ser ≠ normD env c.1.ser || d.1.bench ≠ c.1.bench || d.2 ≠ []
 def W4 (env : Env) (o : Opts) (evs : List Ev) : Bool :=
   allPairs (evs.filter (·.isNum o)) fun x y =>
     x.tkey ≠ y.tkey || x.bench ≠ y.bench || normD env x.ser ≠ normD env y.ser || x.exp = y.exp ||
